@@ -28,7 +28,9 @@ CONSTANTS
   Budgets,    \* element budgets of a delta datagram (header = 1 element, entry = 1 element)
   InitKnown,  \* TRUE: every node starts knowing every other node at version 0
   MaskF2,     \* TRUE: disable the known-finding F2 transitions
-  MaskF4      \* TRUE: disable the known-finding F4 transitions
+  MaskF4,     \* TRUE: disable the known-finding F4 transitions
+  ObsInit(_), \* observer state built from the initial st (GossipObs.tla; NoObsInit when unused)
+  ObsUpdate(_, _) \* observer state after the notifications of one step (a pure function)
 
 LEFTK == "_internal:left"
 COMPK == "_internal:compact"
@@ -43,9 +45,13 @@ VARIABLES
   written,   \* ghost: every entry node n ever had in its own state
   expiredBy, \* ghost: expiredBy[o] = nodes o removed by expiry
   f4taint,   \* ghost: pairs <<o,n>> whose view was damaged by known finding F4
-  relearned  \* ghost: pairs <<o,n>> : o re-created a view of n after expiring it although n is gone (F2)
+  relearned, \* ghost: pairs <<o,n>> : o re-created a view of n after expiring it although n is gone (F2)
+  obs        \* what the watchers have built from the notifications so far (fold / routing table)
 
-vars == <<st, armq, alive, susp, net, evts, written, expiredBy, f4taint, relearned>>
+vars == <<st, armq, alive, susp, net, evts, written, expiredBy, f4taint, relearned, obs>>
+
+NoObsInit(s) == 0
+NoObsUpdate(o, ev) == o
 
 -----------------------------------------------------------------------------
 (* Values *)
@@ -245,6 +251,7 @@ Init ==
   /\ expiredBy = [o \in Node |-> {}]
   /\ f4taint = {}
   /\ relearned = {}
+  /\ obs = ObsInit(st)
 
 \* ---- local writes -------------------------------------------------------
 SetOwn(n, s) ==
@@ -269,10 +276,10 @@ CompactLocalCore(n, thr) ==
   /\ CompactOp(Own(n), thr).ver <= MaxVer
   /\ SetOwn(n, CompactOp(Own(n), thr))
 
-UpsertLocal(n, k, v) == UpsertLocalCore(n, k, v) /\ evts' = <<>>
-DeleteLocal(n, k) == DeleteLocalCore(n, k) /\ evts' = <<>>
-LeaveLocal(n) == LeaveLocalCore(n) /\ evts' = <<>>
-CompactLocal(n, thr) == CompactLocalCore(n, thr) /\ evts' = <<>>
+UpsertLocal(n, k, v) == UpsertLocalCore(n, k, v) /\ evts' = <<>> /\ obs' = ObsUpdate(obs, <<>>)
+DeleteLocal(n, k) == DeleteLocalCore(n, k) /\ evts' = <<>> /\ obs' = ObsUpdate(obs, <<>>)
+LeaveLocal(n) == LeaveLocalCore(n) /\ evts' = <<>> /\ obs' = ObsUpdate(obs, <<>>)
+CompactLocal(n, thr) == CompactLocalCore(n, thr) /\ evts' = <<>> /\ obs' = ObsUpdate(obs, <<>>)
 
 \* ---- datagrams ------------------------------------------------------------
 FreeSlots == (1..MaxSlots) \ DOMAIN net
@@ -305,7 +312,7 @@ StartRoundCore(a, b, dseq) ==
   /\ net' = Put(net, <<DigMsg(a, b, TRUE, dseq)>>)
   /\ UNCHANGED <<st, armq, alive, susp, written, expiredBy, f4taint, relearned>>
 
-StartRound(a, b, dseq) == StartRoundCore(a, b, dseq) /\ evts' = <<>>
+StartRound(a, b, dseq) == StartRoundCore(a, b, dseq) /\ evts' = <<>> /\ obs' = ObsUpdate(obs, <<>>)
 
 \* packetListener.digest: ApplyDigest, answer with a (truncated) delta and, for a
 \* request, with our own digest.  An empty delta is still sent by the code (it is
@@ -339,7 +346,7 @@ RecvDigestEv(slot) ==
   TagEv(net[slot].to, ApplyDigestSeq(Acc(net[slot].to), net[slot].dig).ev)
 
 RecvDigest(slot, keep, cut, rseq, sendEmpty) ==
-  RecvDigestCore(slot, keep, cut, rseq, sendEmpty) /\ evts' = RecvDigestEv(slot)
+  RecvDigestCore(slot, keep, cut, rseq, sendEmpty) /\ evts' = RecvDigestEv(slot) /\ obs' = ObsUpdate(obs, RecvDigestEv(slot))
 
 \* packetListener.delta: report the sender to the failure detector, ApplyDelta
 RecvDeltaCore(slot, keep) ==
@@ -362,14 +369,14 @@ RecvDeltaCore(slot, keep) ==
 RecvDeltaEv(slot) ==
   TagEv(net[slot].to, ApplyDeltaSeq(Acc(net[slot].to), net[slot].to, net[slot].d).ev)
 
-RecvDelta(slot, keep) == RecvDeltaCore(slot, keep) /\ evts' = RecvDeltaEv(slot)
+RecvDelta(slot, keep) == RecvDeltaCore(slot, keep) /\ evts' = RecvDeltaEv(slot) /\ obs' = ObsUpdate(obs, RecvDeltaEv(slot))
 
 LoseCore(slot) ==
   /\ slot \in DOMAIN net
   /\ net' = Without(net, slot)
   /\ UNCHANGED <<st, armq, alive, susp, written, expiredBy, f4taint, relearned>>
 
-Lose(slot) == LoseCore(slot) /\ evts' = <<>>
+Lose(slot) == LoseCore(slot) /\ evts' = <<>> /\ obs' = ObsUpdate(obs, <<>>)
 
 \* ---- streams (join / leave) ---------------------------------------------
 \* Gossip.join(addr) + streamListener.join: atomic from the schedule's point of view.
@@ -401,7 +408,7 @@ JoinStreamEv(a, b, dseq, fseq) ==
   IN TagEv(b, accB2.ev) \o TagEv(a, accA.ev)
 
 JoinStream(a, b, dseq, fseq) ==
-  JoinStreamCore(a, b, dseq, fseq) /\ evts' = JoinStreamEv(a, b, dseq, fseq)
+  JoinStreamCore(a, b, dseq, fseq) /\ evts' = JoinStreamEv(a, b, dseq, fseq) /\ obs' = ObsUpdate(obs, JoinStreamEv(a, b, dseq, fseq))
 
 \* Gossip.leave(addr) + streamListener.leave: a pushes its own full state to b
 LeaveStreamCore(a, b) ==
@@ -416,7 +423,7 @@ LeaveStreamCore(a, b) ==
 
 LeaveStreamEv(a, b) == TagEv(b, ApplyDeltaSeq(Acc(b), b, <<NodeDelta(st[a], a, 0)>>).ev)
 
-LeaveStream(a, b) == LeaveStreamCore(a, b) /\ evts' = LeaveStreamEv(a, b)
+LeaveStream(a, b) == LeaveStreamCore(a, b) /\ evts' = LeaveStreamEv(a, b) /\ obs' = ObsUpdate(obs, LeaveStreamEv(a, b))
 
 \* ---- liveness and expiry ------------------------------------------------
 \* the failure detector's verdict changes (environment)
@@ -426,7 +433,7 @@ SetSuspectCore(o, n, b) ==
   /\ susp' = [susp EXCEPT ![o] = IF b THEN @ \cup {n} ELSE @ \ {n}]
   /\ UNCHANGED <<st, armq, alive, net, written, expiredBy, f4taint, relearned>>
 
-SetSuspect(o, n, b) == SetSuspectCore(o, n, b) /\ evts' = <<>>
+SetSuspect(o, n, b) == SetSuspectCore(o, n, b) /\ evts' = <<>> /\ obs' = ObsUpdate(obs, <<>>)
 
 \* UpdateLiveness: ord = the order in which the map iteration visits the nodes
 \* that change (it fixes the order of arming and of the notifications)
@@ -458,7 +465,7 @@ UpdateLivenessCore(o, ord) ==
 
 UpdateLivenessEv(o, ord) == TagEv(o, LivenessRes(o, ord).ev)
 
-UpdateLiveness(o, ord) == UpdateLivenessCore(o, ord) /\ evts' = UpdateLivenessEv(o, ord)
+UpdateLiveness(o, ord) == UpdateLivenessCore(o, ord) /\ evts' = UpdateLivenessEv(o, ord) /\ obs' = ObsUpdate(obs, UpdateLivenessEv(o, ord))
 
 \* RemoveExpiredAt(t): the first k armed views (deadline order) are due; evord is
 \* the order in which the map iteration announces them.
@@ -477,14 +484,14 @@ RemoveExpiredCore(o, k, evord) ==
 
 RemoveExpiredEv(o, k, evord) == TagEv(o, [i \in 1..k |-> Ev("expired", evord[i], "", "")])
 
-RemoveExpired(o, k, evord) == RemoveExpiredCore(o, k, evord) /\ evts' = RemoveExpiredEv(o, k, evord)
+RemoveExpired(o, k, evord) == RemoveExpiredCore(o, k, evord) /\ evts' = RemoveExpiredEv(o, k, evord) /\ obs' = ObsUpdate(obs, RemoveExpiredEv(o, k, evord))
 
 CrashCore(n) ==
   /\ alive[n]
   /\ alive' = [alive EXCEPT ![n] = FALSE]
   /\ UNCHANGED <<st, armq, susp, net, written, expiredBy, f4taint, relearned>>
 
-Crash(n) == CrashCore(n) /\ evts' = <<>>
+Crash(n) == CrashCore(n) /\ evts' = <<>> /\ obs' = ObsUpdate(obs, <<>>)
 
 -----------------------------------------------------------------------------
 (* Next-state relation of the bounded model.  The model restricts the       *)
@@ -559,9 +566,11 @@ DoCrash(n) == n \in Crashers /\ Crash(n)
 
 MaxCut == MaxVer + Cardinality(Node) + 2
 
-Next ==
+NextWrites ==
   \/ \E n \in Writers, k \in Key, v \in Val : DoUpsert(n, k, v)
   \/ \E n \in Writers, k \in Key : DoDelete(n, k)
+
+NextOther ==
   \/ \E n \in Writers : DoLeave(n)
   \/ \E n \in Writers : DoCompact(n)
   \/ \E a, b \in Node : DoRound(a, b)
@@ -574,6 +583,8 @@ Next ==
   \/ \E o \in Node : DoLiveness(o)
   \/ \E o \in Node, k \in 1..Cardinality(Node) : DoExpire(o, k)
   \/ \E n \in Node : DoCrash(n)
+
+Next == NextWrites \/ NextOther
 
 Spec == Init /\ [][Next]_vars
 
@@ -638,13 +649,41 @@ LeftStickyStep ==
   \A o \in Node : \A n \in Known(o) : (st[o][n].left /\ n \in DOMAIN st'[o]) => st'[o][n].left
 StaysForgotten == relearned = {}
 
+\* C17: the own state as a last-write-wins map.  r[n] maps a key to the value
+\* of the most recent upsert, or to Absent after a delete.
+Absent == "<absent>"
+LiveOf(s, k) == {e \in s.ents : e.k = k /\ ~e.del /\ ~e.int}
+MatchesRefOf(r) ==
+  \A n \in Node : \A k \in DOMAIN r[n] :
+    /\ (r[n][k] = Absent => LiveOf(Own(n), k) = {})
+    /\ (r[n][k] # Absent => \E e \in LiveOf(Own(n), k) : e.v = r[n][k])
+LiveMap(s) == {<<e.k, e.v>> : e \in {x \in s.ents : ~x.del /\ ~x.int}}
+VersionsWellFormed ==
+  \A n \in Node :
+    /\ \A e, f \in Own(n).ents : e.ver = f.ver => e = f
+    /\ \A e \in Own(n).ents : e.ver >= 1 /\ e.ver <= Own(n).ver
+    /\ (Own(n).ents # {} => \E e \in Own(n).ents : e.ver = Own(n).ver)
+\* an effective change takes a fresh, strictly larger version
+FreshVersionStep ==
+  \A n \in Node : Own(n)' # Own(n) =>
+    /\ Own(n)'.ver > Own(n).ver
+    /\ \A e \in Own(n)'.ents \ Own(n).ents : e.ver > Own(n).ver
+\* live keys keep their relative (version) order
+LiveBefore(s) ==
+  {p \in {<<e.k, f.k>> : e, f \in s.ents} :
+     \E e, f \in s.ents : /\ ~e.del /\ ~e.int /\ ~f.del /\ ~f.int
+                          /\ e.k = p[1] /\ f.k = p[2] /\ e.ver < f.ver}
+
 \* temporal forms for the bounded model
 OwnStateOnlyLocal == [][OwnStateOnlyLocalStep]_vars
 VersionMonotone == [][VersionMonotoneStep]_vars
 LeftSticky == [][LeftStickyStep]_vars
 
 \* evts never influences a later step, so the model hides it
-View == <<st, armq, alive, susp, net, written, expiredBy, f4taint, relearned>>
-ViewNoGhost == <<st, armq, alive, susp, net, expiredBy, f4taint, relearned>>
+View == <<st, armq, alive, susp, net, written, expiredBy, f4taint, relearned, obs>>
+ViewNoGhost == <<st, armq, alive, susp, net, expiredBy, f4taint, relearned, obs>>
+\* for generating transition covers (schedules): ghosts and observers do not
+\* change what is enabled
+ViewCover == <<st, armq, alive, susp, net, expiredBy, f4taint, relearned>>
 
 =============================================================================
